@@ -140,6 +140,183 @@ def sqrt(I, st, x):
             yield st1, exc("ValueError", "math domain error")
 
 
+# ---------------------------------------------------------------------------- rational multiples of pi
+def _pi_free(v, seen=None):
+    """True when the z3 term v does not mention the constant `pi` (math.pi)."""
+    if seen is None:
+        seen = {}
+    i = v.get_id()
+    if i in seen:
+        return seen[i]
+    if z3.is_const(v):
+        r = not (v.decl().kind() == z3.Z3_OP_UNINTERPRETED and v.decl().name() == "pi")
+    elif z3.is_app(v):
+        r = all(_pi_free(c, seen) for c in v.children())
+    else:
+        r = False  # quantifiers / variables: do not look inside
+    seen[i] = r
+    return r
+
+
+def pi_coeff(v):
+    """q with v == q * pi IDENTICALLY (structural decomposition, no solver), or None.
+
+    v: Fraction / int / z3 arithmetic term.  q: Fraction when the coefficient is a constant, else a pi-free z3 Real term.
+    Only sums, products with pi-free factors, quotients by pi-free terms, negation and ToReal-free leaves are followed,
+    so the identity holds for every value of pi (it is used with pi > 0 only where stated)."""
+    if isinstance(v, (int, Fraction)) and not isinstance(v, bool):
+        return Fraction(0) if v == 0 else None
+    if not (is_z3(v) and z3.is_real(v)):
+        return None
+
+    def num(t):
+        if z3.is_app_of(t, z3.Z3_OP_TO_REAL) and z3.is_int_value(t.arg(0)):
+            t = t.arg(0)
+        return Fraction(t.as_fraction()) if z3.is_rational_value(t) else (Fraction(t.as_long()) if z3.is_int_value(t) else None)
+
+    def mul(a, b):
+        if isinstance(a, Fraction) and isinstance(b, Fraction):
+            return a * b
+        return z3val(a) * z3val(b)
+
+    def rec(t):
+        if z3.is_const(t) and t.decl().kind() == z3.Z3_OP_UNINTERPRETED and t.decl().name() == "pi":
+            return Fraction(1)
+        n = num(t)
+        if n is not None:
+            return Fraction(0) if n == 0 else None
+        if z3.is_app_of(t, z3.Z3_OP_UMINUS):
+            q = rec(t.arg(0))
+            return None if q is None else mul(Fraction(-1), q)
+        if z3.is_add(t) or z3.is_sub(t):
+            qs = [rec(c) for c in t.children()]
+            if any(q is None for q in qs):
+                return None
+            acc = qs[0]
+            for q in qs[1:]:
+                if z3.is_add(t):
+                    acc = acc + q if isinstance(acc, Fraction) and isinstance(q, Fraction) else z3val(acc) + z3val(q)
+                else:
+                    acc = acc - q if isinstance(acc, Fraction) and isinstance(q, Fraction) else z3val(acc) - z3val(q)
+            return acc
+        if z3.is_mul(t):
+            cs = t.children()
+            withpi = [c for c in cs if not _pi_free(c)]
+            if len(withpi) != 1:
+                return None
+            q = rec(withpi[0])
+            if q is None:
+                return None
+            for c in cs:
+                if c is withpi[0]:
+                    continue
+                n = num(c)
+                q = mul(q, n if n is not None else c)
+            return q
+        if z3.is_app_of(t, z3.Z3_OP_DIV):
+            a, b = t.arg(0), t.arg(1)
+            if not _pi_free(b):
+                return None
+            nb = num(b)
+            if nb is None or nb == 0:
+                return None  # only concrete non-zero divisors (x / 0 is unspecified in SMT)
+            q = rec(a)
+            if q is None:
+                return None
+            return q / nb if isinstance(q, Fraction) else q / z3val(nb)
+        return None
+
+    return rec(v)
+
+
+def _int_times_rational(q):
+    """(n, c) with q == ToReal(n) * c identically (n a z3 Int term, c a Fraction), or None"""
+    def num(t):
+        if z3.is_app_of(t, z3.Z3_OP_TO_REAL) and z3.is_int_value(t.arg(0)):
+            t = t.arg(0)
+        return Fraction(t.as_fraction()) if z3.is_rational_value(t) else (Fraction(t.as_long()) if z3.is_int_value(t) else None)
+
+    def rec(t):
+        if z3.is_app_of(t, z3.Z3_OP_TO_REAL):
+            return (t.arg(0), Fraction(1)) if num(t) is None else None
+        if z3.is_app_of(t, z3.Z3_OP_UMINUS):
+            r = rec(t.arg(0))
+            return None if r is None else (r[0], -r[1])
+        if z3.is_mul(t):
+            c = Fraction(1)
+            rest = []
+            for ch in t.children():
+                v = num(ch)
+                if v is None:
+                    rest.append(ch)
+                else:
+                    c *= v
+            if len(rest) != 1:
+                return None
+            r = rec(rest[0])
+            return None if r is None else (r[0], r[1] * c)
+        if z3.is_app_of(t, z3.Z3_OP_DIV):
+            d = num(t.arg(1))
+            if d is None or d == 0:
+                return None
+            r = rec(t.arg(0))
+            return None if r is None else (r[0], r[1] / d)
+        return None
+
+    if not (is_z3(q) and z3.is_real(q)):
+        return None
+    r = rec(q)
+    if r is None or r[1] == 0:
+        return None
+    return r
+
+
+def pi_quotient(op, x, y):
+    """x op y for op in Div / FloorDiv / Mod when x = q1 * pi and y = q2 * pi with a CONCRETE non-zero rational q2:
+    pi cancels exactly (pi > 0 for the floor): x / y = q1 / q2, x // y = floor(q1 / q2), x % y = (q1 - q2 floor(q1 / q2)) pi.
+    -> value, or None when the operands are not of that form."""
+    if not (is_z3(x) and is_z3(y)) or not (z3.is_real(x) and z3.is_real(y)):
+        return None
+    q2 = pi_coeff(y)
+    if not isinstance(q2, Fraction) or q2 == 0:
+        return None
+    q1 = pi_coeff(x)
+    if q1 is None:
+        return None
+    pi = z3.Real("pi")
+    if isinstance(q1, Fraction):
+        r = q1 / q2
+        fl = Fraction(math.floor(r))
+        if op == "Div":
+            return r
+        if op == "FloorDiv":
+            return fl
+        m = q1 - q2 * fl
+        return Fraction(0) if m == 0 else z3.RealVal(m) * pi
+    nc = _int_times_rational(q1)
+    if nc is not None:
+        # q1 = n * c with an Int term n and a rational c: q1 / q2 = n * a / b (b > 0), so the floor and the remainder
+        # are INTEGER division / modulus of a * n by b (SMT-LIB div / mod are floor / non-negative for b > 0)
+        n, c = nc
+        ratio = c / q2
+        a, b = ratio.numerator, ratio.denominator
+        an = n if a == 1 else z3.IntVal(a) * n
+        if op == "Div":
+            return z3.ToReal(n) if ratio == 1 else z3.ToReal(n) * z3.RealVal(ratio)
+        if op == "FloorDiv":
+            return z3.ToReal(an if b == 1 else an / b)
+        if b == 1:
+            return Fraction(0)
+        return z3.ToReal(an % b) * z3.RealVal(q2 / b) * pi
+    r = q1 / z3val(q2)
+    if op == "Div":
+        return r
+    fl = z3.ToReal(z3.ToInt(r))
+    if op == "FloorDiv":
+        return fl
+    return (q1 - z3val(q2) * fl) * pi
+
+
 def binop(I, st, op, a, b, inplace=False):
     """yield (st, value|Exc)"""
     from . import npmodel, models
@@ -264,6 +441,9 @@ def binop(I, st, op, a, b, inplace=False):
         yield st, x - y
     elif op == "Mult":
         yield st, x * y
+    elif op in ("Div", "FloorDiv", "Mod") and pi_quotient(op, x, y) is not None:
+        # both operands are multiples of math.pi (divisor: a concrete non-zero rational multiple): pi cancels exactly
+        yield st, pi_quotient(op, x, y)
     elif op in ("Div", "FloorDiv", "Mod"):
         for st1, nz in I.branch(st, y != 0):
             if not nz:
